@@ -333,7 +333,7 @@ class EBB3:
                     error_msg = f'EBB Serial Timeout after command: {cmd}'
                 self.record_error(error_msg)
 
-        except (serial.SerialException, IOError, RuntimeError, OSError):
+        except (serial.SerialException, IOError, RuntimeError, OSError, UnicodeDecodeError):
             if cmd_name.lower() not in ["rb", "r", "bl"]: # Ignore err on these commands
                 error_msg = f'USB communication error after command: {cmd}'
                 self.record_error(error_msg)
@@ -380,7 +380,7 @@ class EBB3:
                 response = self.port.readline().decode('ascii').strip()
                 n_retry_count += 1
 
-        except (serial.SerialException, IOError, RuntimeError, OSError):
+        except (serial.SerialException, IOError, RuntimeError, OSError, UnicodeDecodeError):
             if qry_name.lower() not in ["rb", "r", "bl"]: # Ignore err on these commands
                 error_msg = f'USB communication error after query: {qry}'
                 self.record_error(error_msg)
@@ -426,7 +426,7 @@ class EBB3:
                 self.record_error(error_msg)
                 return None
 
-        except (serial.SerialException, IOError, RuntimeError, OSError):
+        except (serial.SerialException, IOError, RuntimeError, OSError, UnicodeDecodeError):
             error_msg = 'USB communication error after status byte query'
             self.record_error(error_msg)
             return None
